@@ -22,6 +22,7 @@ import (
 	"fmt"
 	"math/big"
 	"os"
+	"os/exec"
 	"path/filepath"
 	"runtime"
 	"sort"
@@ -39,6 +40,7 @@ import (
 	"github.com/aergoio/aergo/v2/contract"
 	"github.com/aergoio/aergo/v2/contract/system"
 	"github.com/aergoio/aergo/v2/internal/enc/base58"
+	encproto "github.com/aergoio/aergo/v2/internal/enc/proto"
 	"github.com/aergoio/aergo/v2/pkg/component"
 	"github.com/aergoio/aergo/v2/state"
 	"github.com/aergoio/aergo/v2/state/statedb"
@@ -742,6 +744,7 @@ type session struct {
 	last      *produced
 	stopPos   int
 	reps      int
+	blocks    []*types.Block // the blocks of the session, for the validator in another process
 }
 
 var daoValues = map[string][]string{
@@ -1325,7 +1328,151 @@ func (s *session) step() bool {
 		}
 	}
 	s.parent = p.blk
+	s.blocks = append(s.blocks, p.blk)
 	return true
+}
+
+// ---------------------------------------------------------------- a validator in ANOTHER PROCESS
+//
+// The nodes of a session live in one process and share /repo's package-level variables (the harness parks and
+// installs the ones it knows about). A validator in a process of its own shares nothing: its own globals, its own
+// map hash seeds and addresses, its own GOMAXPROCS, time zone, coinbase account, worker counts. After a session
+// the harness starts itself again (`-c02child file`), hands over the session's blocks and compares the state root
+// the child reaches after every block with the header.
+
+type childJob struct {
+	Label  string    `json:"label"`
+	Warp   bool      `json:"warp"`
+	HF     [4]uint64 `json:"hf"`
+	Blocks []string  `json:"blocks"` // hex of the protobuf encoding
+	Dir    string    `json:"dir"`
+}
+
+type childAnswer struct {
+	I    int    `json:"i"`
+	Err  string `json:"err"`
+	Root string `json:"root"`
+}
+
+func childMain(jobFile string) {
+	zerolog.SetGlobalLevel(zerolog.Disabled)
+	raw, err := os.ReadFile(jobFile)
+	if err != nil {
+		panic(err)
+	}
+	var job childJob
+	if err := json.Unmarshal(raw, &job); err != nil {
+		panic(err)
+	}
+	dpos.VerifC02DecorateVotingReward()
+	hf := config.HardforkConfig{V2: job.HF[0], V3: job.HF[1], V4: job.HF[2], V5: job.HF[3]}
+	w := newWorld(&vh.Run{Out: job.Dir}, vh.NewRng(1), &hf, job.Label+"-child")
+	n := w.newNode("C", nodeConf{coinbase: cbAccount(0xCD), verifiers: 3, workers: 1})
+	system.VerifC02InstallGlobals(n.g)
+	enc := json.NewEncoder(os.Stdout)
+	for i, hexBlk := range job.Blocks {
+		b, _ := hex.DecodeString(hexBlk)
+		blk := &types.Block{}
+		ans := childAnswer{I: i}
+		if err := encproto.Decode(b, blk); err != nil {
+			ans.Err = "decode: " + err.Error()
+			enc.Encode(ans)
+			break
+		}
+		out, panicked := vh.Guard(func() string {
+			var err error
+			if job.Warp {
+				err = chain.VerifC02ExecCommit(n.cs, blk)
+			} else {
+				err = chain.VerifC02AddBlock(n.cs, blk, nil, "peer")
+			}
+			system.CommitParams(err == nil)
+			if err != nil {
+				return err.Error()
+			}
+			return ""
+		})
+		if panicked {
+			out = "panic: " + out
+		}
+		ans.Err = out
+		ans.Root = hx(n.cs.SDB().GetRoot())
+		enc.Encode(ans)
+		if out != "" {
+			break
+		}
+	}
+	os.RemoveAll(filepath.Join(job.Dir, "nodes", job.Label+"-child"))
+	os.Exit(0)
+}
+
+var childEnvs = [][]string{
+	{"TZ=Asia/Seoul", "GOMAXPROCS=1"},
+	{"TZ=America/New_York", "GOMAXPROCS=3"},
+	{"TZ=UTC", "GOMAXPROCS=8"},
+}
+
+// otherProcess re-validates the whole session in a child process.
+func (s *session) otherProcess(k int) {
+	if len(s.blocks) == 0 {
+		return
+	}
+	job := childJob{Label: s.w.label, Warp: s.warp, HF: [4]uint64{s.w.hf.V2, s.w.hf.V3, s.w.hf.V4, s.w.hf.V5}, Dir: s.run.Out}
+	for _, b := range s.blocks {
+		raw, err := encproto.Encode(b)
+		if err != nil {
+			panic(err)
+		}
+		job.Blocks = append(job.Blocks, hex.EncodeToString(raw))
+	}
+	jf := filepath.Join(s.run.Out, "child-"+s.w.label+".json")
+	raw, _ := json.Marshal(job)
+	if err := os.WriteFile(jf, raw, 0o644); err != nil {
+		panic(err)
+	}
+	defer os.Remove(jf)
+	self, err := os.Executable()
+	if err != nil {
+		panic(err)
+	}
+	cmd := exec.Command(self, "-c02child", jf)
+	cmd.Env = append(os.Environ(), childEnvs[k%len(childEnvs)]...)
+	var stderr bytes.Buffer
+	cmd.Stderr = &stderr
+	outb, err := cmd.Output()
+	var answers []childAnswer
+	dec := json.NewDecoder(bytes.NewReader(outb))
+	for {
+		var a childAnswer
+		if dec.Decode(&a) != nil {
+			break
+		}
+		answers = append(answers, a)
+	}
+	if err != nil && len(answers) == 0 {
+		// the child could not be run at all (not a statement about /repo): counted, not judged
+		s.run.Count("validator in another process could not be started")
+		return
+	}
+	for i, b := range s.blocks {
+		want := hx(b.GetHeader().GetBlocksRootHash())
+		if i >= len(answers) {
+			tail := stderr.String()
+			if len(tail) > 1500 {
+				tail = tail[len(tail)-1500:]
+			}
+			s.fail("a validator in another process stopped while re-executing the session's blocks", map[string]interface{}{"block": i, "stderr": tail})
+			return
+		}
+		a := answers[i]
+		s.run.Eval("", false)
+		if a.Err != "" || a.Root != want {
+			s.fail("a validator in another process (own globals, map seeds, GOMAXPROCS, time zone, coinbase account) does not reach the producer's state root",
+				map[string]interface{}{"block": i, "block_no": b.BlockNo(), "header_root": want, "child_root": a.Root, "child_error": a.Err, "child_env": childEnvs[k%len(childEnvs)]})
+			return
+		}
+	}
+	s.run.Count("session re-validated block by block in another process")
 }
 
 func runSession(run *vh.Run, label string, hf *config.HardforkConfig, warp bool, nblocks int) {
@@ -1358,11 +1505,16 @@ func runSession(run *vh.Run, label string, hf *config.HardforkConfig, warp bool,
 			return
 		}
 	}
+	s.otherProcess(int(run.Seed) + len(label))
 	clean = true
 	run.Count("session " + label + " completed")
 }
 
 func main() {
+	if len(os.Args) == 3 && os.Args[1] == "-c02child" {
+		childMain(os.Args[2])
+		return
+	}
 	zerolog.SetGlobalLevel(zerolog.Disabled)
 	run := vh.Start("c02", "nontrivial = a tally of >= 2 candidates / >= 2 pending power changes / a block with >= 1 tx; distinct by (operation, answer) or by block roots")
 	dpos.VerifC02DecorateVotingReward()
